@@ -435,7 +435,12 @@ func oneRun(w *lib.Writer, rnd *lib.Rand, engine, scratch string, cacheSize int)
 		lr = append(lr, l.rev)
 	}
 	c := lib.Case{Kind: "list-then-watch/" + engine,
-		Coq: lib.App("KLw", lib.Bytes(P), lib.List(ss), lib.N(R0), coqStore(kv0), lib.Bool(werr == nil), lib.List(es), lib.List(ls)),
+		Coq: func() string {
+			if !slotsValid(slots) {
+				invalidKLw++
+			}
+			return lib.App("KLw", lib.Bytes(P), lib.List(ss), lib.N(R0), coqStore(kv0), lib.Bool(werr == nil), lib.List(es), lib.List(ls))
+		}(),
 		JSON: map[string]interface{}{"engine": engine, "prefix": string(P), "initial_revision": c0, "writers": nW, "ops_per_writer": nOps,
 			"successful_writes": len(slots), "R0": R0, "first_list_size": len(kv0), "event_revisions": hs, "list_revisions": lr,
 			"compactions": atomic.LoadInt32(&ncompact)},
@@ -659,7 +664,12 @@ func hookedRun(w *lib.Writer, rnd *lib.Rand, scratch string, midScan bool, cache
 		kind = "list-then-watch/hooked-write-during-scan"
 	}
 	c := lib.Case{Kind: kind,
-		Coq: lib.App("KLw", lib.Bytes(P), lib.List(ss), lib.N(R0), coqStore(kv0), lib.Bool(werr == nil), lib.List(es), lib.List(ls)),
+		Coq: func() string {
+			if !slotsValid(slots) {
+				invalidKLw++
+			}
+			return lib.App("KLw", lib.Bytes(P), lib.List(ss), lib.N(R0), coqStore(kv0), lib.Bool(werr == nil), lib.List(es), lib.List(ls))
+		}(),
 		JSON: map[string]interface{}{"engine": "memkv", "prefix": string(P), "initial_revision": c0, "successful_writes": len(slots),
 			"R0": R0, "first_list_size": len(kv0), "event_revisions": hs, "list_revisions": lr, "write_during_scan": midScan},
 		Trivial: len(got) == 0 || werr != nil}
@@ -758,6 +768,8 @@ func main() {
 		}
 		oneRun(w, rnd.Fork(), engines[i%len(engines)], args.Scratch, cs)
 	}
+	w.Stats.Extra["invalid_cases"] = invalidKLw
+	w.Stats.Extra["unknown_outcome_cases_outside_c06_validb"] = faultCases
 	if err := w.Finish("trivial = the watch delivered no event, or fewer than two later range reads were taken"); err != nil {
 		fmt.Fprintln(os.Stderr, err)
 		os.Exit(2)
